@@ -40,7 +40,10 @@ EXPLANATION = (
 FROZEN = os.path.join(os.path.dirname(__file__), "frozen")
 ITER = {"_tblITER": 2, "tblPrint": 2, "tblColumnPrint": 2, "tblRemoveIf": 1, "tblNMap": 2}
 AMBIENT = {"time", "clock", "gettimeofday", "times", "rand", "srand", "random", "srandom", "getpid", "tmpnam", "mkstemp",
-           "getenv", "osGetEnv", "osDate", "osCpuTime", "osRandom", "localtime", "ctime", "gmtime", "getrusage"}
+           "getenv", "osGetEnv", "osDate", "osCpuTime", "osRandom", "localtime", "ctime", "gmtime", "getrusage",
+           # where the process runs and who runs it: the working directory, links on the way to it, host and user
+           "getcwd", "getwd", "get_current_dir_name", "realpath", "canonicalize_file_name", "readlink", "gethostname", "uname",
+           "getuid", "geteuid", "getlogin", "cuserid", "ttyname"}
 
 
 EXPLANATION = EXPLANATION + EXPLANATION_D4
